@@ -293,7 +293,12 @@ func (u *Unit) oblige(s *State, name string, props []string, kind, goal string, 
 	}
 	if u.fc != nil && s.cells != nil {
 		// replay terms and guide formulas are evaluated in the state of the obligation (locals are visible)
-		for _, kv := range u.fc.ReplayKV {
+		var rkv [][2]string
+		if spec := u.fc.replayFor(props); spec != nil {
+			rkv = spec.KV
+			o.Adapter = spec.Adapter
+		}
+		for _, kv := range rkv {
 			env := u.bodyEnv(s, u.fn)
 			env.paramsEntry = true
 			if t, err := env.term(kv[1]); err == nil {
